@@ -248,6 +248,121 @@ fn order_at(i: usize, cfg: &Cfg, log: &mut Log) {
   }
 }
 
+/// lunar days that have already answered questions are stepped (day-by-day chain through month i into the next
+/// month, and one random jump of -35..35 days): label, civil date, sexagenary-day view and round trip of every
+/// stepped value are those of the civil day n days later, whatever the source value had memoised
+fn walk_at(i: usize, cfg: &Cfg, log: &mut Log) {
+  use tyme4rs::tyme::Tyme;
+  let seq = lunar_seq();
+  let n = seq.months.len();
+  if i < 2 || i + 3 >= n {
+    return;
+  }
+  let w = &seq.months[i - 2..=i + 3];
+  // the months around must tile (they do not in the listed reform eras) and be convertible
+  if w.windows(2).any(|p| p[0].first + p[0].days != p[1].first) || !cal().in_range(w[0].first) || !cal().in_range(w[5].first + w[5].days) {
+    log.count("walk.months_skipped_not_tiling_or_out_of_range", 1);
+    return;
+  }
+  if w.iter().any(|m| [8i64, 9, 23, 24, 25, 239, 240].contains(&m.y)) {
+    log.count("walk.months_skipped_not_tiling_or_out_of_range", 1);
+    return;
+  }
+  let label_of = |c: i64| -> Option<Lymd> { w.iter().find(|m| c >= m.first && c < m.first + m.days).map(|m| (m.y, m.m, c - m.first + 1)) };
+  let a = w[2];
+  let mut rng = Rng::new(mix(cfg.seed, i as u64 ^ 0x1C02));
+  let warm0 = rng.below(5);
+  let d0 = rng.range(1, a.days);
+  let jump = rng.range(-35, 35);
+  let mkey = fmt_lym(a.y, a.m);
+  let warm = |v: &LunarDay, k: usize| match k % 5 {
+    0 => {}
+    1 => {
+      let _ = v.get_solar_day();
+    }
+    2 => {
+      let _ = v.get_sixty_cycle_day();
+    }
+    3 => {
+      let _ = v.get_week();
+      let _ = v.get_duty();
+    }
+    _ => {
+      let _ = v.get_solar_day();
+      let _ = v.get_sixty_cycle_day();
+    }
+  };
+  type Obs = (Lymd, Ymd, Option<Ymd>, Lymd);
+  let observe = |v: &LunarDay| -> Obs {
+    let s = v.get_solar_day();
+    (lymd(v), ymd(&s), Some(ymd(&v.get_sixty_cycle_day().get_solar_day())), lymd(&s.get_lunar_day()))
+  };
+  let r = guard(|| {
+    let mut out: Vec<(String, String, String)> = vec![];
+    let mut steps = 0u64;
+    let judge = |what: &str, k: i64, c: i64, o: Obs, out: &mut Vec<(String, String, String)>| {
+      let want_l = label_of(c);
+      let want_s = cal().date(c);
+      if Some(o.0) != want_l || o.1 != want_s || o.2 != Some(want_s) || Some(o.3) != want_l {
+        out.push((
+          format!("C02/stepped-{}/{}", what, mkey),
+          format!("step {:+}: label {} civil {} sexagenary-day view on {} round trip {}", k, fmt_lymd(o.0), fmt_ymd(o.1), o.2.map(fmt_ymd).unwrap_or_default(), fmt_lymd(o.3)),
+          format!("label {} civil {}", want_l.map(fmt_lymd).unwrap_or_default(), fmt_ymd(want_s)),
+        ));
+      }
+    };
+    // chain from day 1 through the month and two days into the next
+    let mut v = LunarDay::from_ymd(a.y as isize, a.m as isize, 1);
+    for k in 0..a.days + 2 {
+      warm(&v, warm0 + k as usize);
+      let nx = v.next(1);
+      // the value stepped from is judged after it has been stepped from, the stepped one on the next round
+      if k == 0 || out.is_empty() {
+        judge("chain", k, a.first + k, observe(&v), &mut out);
+      }
+      steps += 1;
+      v = nx;
+    }
+    // chain backwards from the last day
+    let mut v = LunarDay::from_ymd(a.y as isize, a.m as isize, a.days as usize);
+    for k in 0..4i64 {
+      warm(&v, warm0 + 1 + k as usize);
+      let nx = v.next(-1);
+      judge("chain-back", -k, a.first + a.days - 1 - k, observe(&v), &mut out);
+      steps += 1;
+      v = nx;
+    }
+    // one jump from a warmed value
+    let o = LunarDay::from_ymd(a.y as isize, a.m as isize, d0 as usize);
+    warm(&o, warm0 + 1);
+    let g = o.next(jump as isize);
+    judge("jump", jump, a.first + d0 - 1 + jump, observe(&g), &mut out);
+    judge("jump-source", 0, a.first + d0 - 1, observe(&o), &mut out);
+    // and from the civil side: the lunar day handed out by a civil day, warmed, stepped
+    let s = sd_of_dn(a.first + d0 - 1).get_lunar_day();
+    warm(&s, warm0 + 2);
+    let g2 = s.next(-jump as isize);
+    judge("jump-from-civil", -jump, a.first + d0 - 1 - jump, observe(&g2), &mut out);
+    steps += 3;
+    (out, steps)
+  });
+  log.ev(1);
+  match r {
+    Ok((v, steps)) => {
+      log.count("walk.stepped_values_judged", steps);
+      log.count("walk.months_walked", 1);
+      if a.m < 0 {
+        log.count("walk.leap_months_walked", 1);
+        log.nt(1);
+      }
+      for (sig, o, e) in v {
+        log.violate(sig, "LunarDay::next after earlier queries", format!("{} warm{} day{} jump{:+}", mkey, warm0, d0, jump), o, e);
+      }
+    }
+    Err(msg) => log.violate(format!("C02/panic-stepped/{}", mkey), "LunarDay::next after earlier queries", mkey.clone(), format!("panic: {}", msg), "no panic".into()),
+  }
+}
+
 pub fn run(cfg: &Cfg) -> (Log, Meta) {
   crate::util::set_thread_cap(6);
   let mut log = Log::new();
@@ -269,6 +384,10 @@ pub fn run(cfg: &Cfg) -> (Log, Meta) {
     Tier::Quick => (0..=9999).filter(|y| y % 8 == (cfg.seed % 8) as i64 || *y <= 300 || (1570..=1600).contains(y) || *y >= 9900).collect(),
   };
   log.merge(par_range(years.len(), 8, |i, l| lunar_year(years[i], l)));
+  // 4. stepping values that carry memos
+  let stride = cfg.tier.pick(6usize, 1usize);
+  let widx: Vec<usize> = (0..seq.months.len()).filter(|i| i % stride == (cfg.seed as usize) % stride || seq.months[*i].m < 0 && i % 2 == 0).collect();
+  log.merge(par_range(widx.len(), 64, |i, l| walk_at(widx[i], cfg, l)));
   // out-of-range years are refused (after the valid-domain sweep, see DESIGN section 2)
   for y in [-2i64, -3, 10000, 10001] {
     log.ev(1);
@@ -288,11 +407,15 @@ pub fn run(cfg: &Cfg) -> (Log, Meta) {
   log.floor("order.pairs_with_a_leap_twin", 50_000);
   log.floor("lunar.days_round_tripped", cfg.tier.pick(400_000, 3_600_000));
   log.floor("lunar.refusals_checked", cfg.tier.pick(50_000, 400_000));
+  log.floor("walk.months_walked", cfg.tier.pick(15_000, 110_000));
+  log.floor("walk.leap_months_walked", cfg.tier.pick(1_000, 3_000));
+  log.floor("walk.stepped_values_judged", cfg.tier.pick(500_000, 4_000_000));
   let meta = Meta {
     rule: format!(
-      "civil side exhaustive (all 3,652,061 dates: get_lunar_day, back, successor relation to the previous day); ordering at every one of the {} months (last/first, random days of m, m+1, m+2, same month, a far partner, and for every leap month all ordered pairs of {{regular, leap, next}} x 3 day choices; LunarHour order on every 16th boundary); lunar side: every accepted (year, month, day) of {} lunar years round-tripped and day 0 / day_count+1 / day 31 / month 0, +-13, +-14 / every leap month the year lacks / years -2,-3,10000,10001 refused. Non-trivial = leap-month days, month-boundary transitions, leap-twin pairs, refusal probes (counted).",
+      "civil side exhaustive (all 3,652,061 dates: get_lunar_day, back, successor relation to the previous day); ordering at every one of the {} months (last/first, random days of m, m+1, m+2, same month, a far partner, and for every leap month all ordered pairs of {{regular, leap, next}} x 3 day choices; LunarHour order on every 16th boundary); lunar side: every accepted (year, month, day) of {} lunar years round-tripped and day 0 / day_count+1 / day 31 / month 0, +-13, +-14 / every leap month the year lacks / years -2,-3,10000,10001 refused; stepping: in {} months a day-by-day LunarDay::next chain through the month (values first answer a drawn subset of their getters), a backward chain, and jumps of -35..35 days from warmed values built by label and handed out by a civil day - label, civil date, sexagenary-day view and round trip of each stepped value vs the counted calendar. Non-trivial = leap-month days, month-boundary transitions, leap-twin pairs, refusal probes (counted).",
       seq.months.len(),
-      years.len()
+      years.len(),
+      widx.len()
     ),
     assumptions: vec!["chronological order of lunar dates = order of first_julian_day + day - 1 as reported by the library; equal to civil order wherever months tile (C03)".into(), "Err and panic both count as refusal".into()],
     exhaustive: cfg.tier == Tier::Thorough,
